@@ -165,8 +165,10 @@ def run(ck, tier):
             ck.ob('R1', df.qn, 'bits come back through unpack_bitstring', isinstance(ret, ast.Call) and callee_name(ret) == 'unpack_bitstring', detail='bits-decoder', loc=cx.floc(df))
             continue
         if name == 'string':
-            bs = _fmt_of(cx, barg, bf, b)
-            ck.ob('R1', bf.qn, "string packed as '<n>s' with n = len(value)", bs is not None and bs[1] == 's' and any('len(' in m for m in bs[3]),
+            fmt = barg.args[0] if isinstance(barg, ast.Call) and callee_name(barg) == 'pack' and barg.args else None
+            s_code = fmt is not None and any(isinstance(x, ast.Constant) and isinstance(x.value, str) and x.value.endswith('s') for x in ast.walk(fmt))
+            has_len = fmt is not None and any(isinstance(x, ast.Call) and isinstance(x.func, ast.Name) and x.func.id == 'len' for x in ast.walk(fmt))
+            ck.ob('R1', bf.qn, "string packed with a '<n>s' format whose n is a len(...)", bool(s_code and has_len),
                   detail='string-builder %s' % U(barg)[:60], loc=cx.floc(bf))
             # n is the length of the very bytes that are packed (struct truncates / pads silently otherwise)
             same = False
